@@ -443,7 +443,11 @@ class Body:
                         i = int(p["f"].split("#")[1])
                         base = self.upvar_role(i, depth, seen)
                     else:
-                        base = ("field", base, p["f"])
+                        sb = base
+                        if isinstance(sb, tuple) and sb[0] == "agg" and len(sb) > 3 and p["f"] in sb[3] and sb[1] != "repeat":
+                            base = sb[2][sb[3].index(p["f"])]
+                        else:
+                            base = ("field", base, p["f"])
                 elif "idx" in p or "cidx" in p:
                     base = ("index", base)
                 elif "dc" in p:
@@ -519,7 +523,14 @@ class Body:
             what = rv.get("adt") or rv.get("def") or rv.get("agg")
             if rv.get("agg") == "adt":
                 what = "%s::%s" % (rv["adt"], rv["variant"])
-            return ("agg", what, [self.role_of_operand(o, depth, seen) for o in rv["ops"]])
+            ops = [self.role_of_operand(o, depth, seen) for o in rv["ops"]]
+            if rv.get("agg") == "tuple":
+                names = [str(i) for i in range(len(ops))]
+            elif rv.get("agg") == "adt":
+                names = list(rv.get("fields", []))
+            else:
+                names = []
+            return ("agg", what, ops, names)
         if k == "repeat":
             return ("agg", "repeat", [self.role_of_operand(rv["op"], depth, seen)])
         if k == "tlref":
@@ -912,3 +923,268 @@ def _guards_dominating(self, bb):
 
 
 Body.guards_dominating = _guards_dominating
+
+
+# ---------------------------------------------------------------------------- value dependence
+class Deps:
+    """Flow-insensitive, over-approximating value dependence for one root function and the
+    closures created in it.  Nodes are (body id, local) and (closure body id, 'U', i) for the
+    i-th captured variable.  node -> nodes it may depend on, node -> atoms.
+    Atoms: ('param', body, name) ('call', body, bb, name, owner) ('field', adt, field)
+           ('const', text) ('tls', def)"""
+
+    def __init__(self, crate, root):
+        self.crate = crate
+        self.root = root
+        self.edges = defaultdict(set)
+        self.atoms = defaultdict(set)
+        for b in root.all_bodies():
+            self._build(b)
+
+    def _node(self, b, pl):
+        """node for the base of a place; captured variables of closures get their own node"""
+        if b.kind == "Closure" and pl["l"] == 1:
+            for p in pl["p"]:
+                if isinstance(p, dict) and "f" in p and p["f"].startswith("upvar#"):
+                    return (b.id, "U", int(p["f"].split("#")[1]))
+        return (b.id, pl["l"])
+
+    def _use_place(self, b, tgt, pl):
+        self.edges[tgt].add(self._node(b, pl))
+        for p in pl["p"]:
+            if isinstance(p, dict):
+                if "f" in p and not p["f"].startswith("upvar#"):
+                    self.atoms[tgt].add(("field", p["adt"], p["f"]))
+                if "idx" in p:
+                    self.edges[tgt].add((b.id, p["idx"]))
+
+    def _use_op(self, b, tgt, op):
+        if op["k"] in ("copy", "move"):
+            self._use_place(b, tgt, op["pl"])
+        elif op["k"] == "const":
+            if "fn" in op:
+                self.atoms[tgt].add(("fnconst", op.get("res") or op["fn"]))
+            else:
+                self.atoms[tgt].add(("const", op.get("text")))
+
+    def _is_mut_ref_ty(self, ty):
+        return ty.startswith("&mut ") or ty.startswith("&'") and " mut " in ty.split(" ", 2)[1:2]
+
+    def _build(self, b):
+        for l in range(1, b.argc + 1):
+            if not (b.kind == "Closure" and l == 1):
+                self.atoms[(b.id, l)].add(("param", b.id, b.var_names.get(l, "_%d" % l)))
+        if b.creation is not None:
+            parent, bb, si, ops = b.creation
+            for i, o in enumerate(ops):
+                u = (b.id, "U", i)
+                self._use_op(parent, u, o)
+                pl = op_place(o)
+                if pl is not None:
+                    # captured by reference: writes inside the closure reach the parent's variable
+                    self.edges[self._node(parent, pl)].add(u)
+        for bi, blk in enumerate(b.blocks):
+            if blk["cleanup"]:
+                continue
+            for s in blk["stmts"]:
+                if s["k"] != "assign":
+                    continue
+                tgt = self._node(b, s["lhs"])
+                for p in s["lhs"]["p"]:
+                    if isinstance(p, dict) and "idx" in p:
+                        self.edges[tgt].add((b.id, p["idx"]))
+                rv = s["rv"]
+                k = rv["k"]
+                if k in ("use", "cast", "repeat"):
+                    self._use_op(b, tgt, rv["op"])
+                elif k in ("ref", "rawptr"):
+                    self._use_place(b, tgt, rv["pl"])
+                    if rv.get("mut") or k == "rawptr":
+                        self.edges[self._node(b, rv["pl"])].add(tgt)
+                elif k == "discr":
+                    self._use_place(b, tgt, rv["pl"])
+                elif k == "bin":
+                    self._use_op(b, tgt, rv["a"])
+                    self._use_op(b, tgt, rv["b"])
+                elif k == "un":
+                    self._use_op(b, tgt, rv["a"])
+                elif k == "agg":
+                    for o in rv["ops"]:
+                        self._use_op(b, tgt, o)
+                    if rv.get("agg") == "closure":
+                        c = self.crate.bodies.get(rv["def"])
+                        if c is not None:
+                            self.edges[tgt].add((c.id, 0))
+                elif k == "tlref":
+                    self.atoms[tgt].add(("tls", rv["def"]))
+            t = blk["term"]
+            if t["k"] == "call":
+                cs = b.call_at[bi]
+                tgt = self._node(b, t["dest"])
+                if cs.callee is not None:
+                    atom = ("call", b.id, bi, cs.callee.name, cs.callee.impl_self or cs.callee.trait or "", cs.callee.target)
+                else:
+                    atom = ("icall", b.id, bi)
+                    self._use_op(b, tgt, t["func"])
+                self.atoms[tgt].add(atom)
+                argnodes = []
+                for a in t["args"]:
+                    self._use_op(b, tgt, a)
+                    pl = op_place(a)
+                    if pl is not None:
+                        argnodes.append((self._node(b, pl), pl))
+                    if a["k"] == "const" and a.get("closure"):
+                        c = self.crate.bodies.get(a["closure"])
+                        if c is not None:
+                            self.edges[tgt].add((c.id, 0))
+                # arguments that are (or contain) mutable references may be written by the callee
+                for n, pl in argnodes:
+                    ty = b.local_ty(pl["l"]) if not pl["p"] else ""
+                    if pl["p"] or "&mut" in ty or "mut " in ty or True:
+                        if "&mut" in (b.local_ty(pl["l"])) or (cs.callee is None):
+                            self.atoms[n].add(atom)
+                            for m, _ in argnodes:
+                                if m != n:
+                                    self.edges[n].add(m)
+                            for a in t["args"]:
+                                if a["k"] == "const":
+                                    self._use_op(b, n, a)
+                            # a returned reference may alias the argument
+                            self.edges[n].add(tgt)
+
+    def closure_of(self, start_nodes):
+        seen = set()
+        work = list(start_nodes)
+        while work:
+            n = work.pop()
+            if n in seen:
+                continue
+            seen.add(n)
+            for m in self.edges.get(n, ()):
+                if m not in seen:
+                    work.append(m)
+        return seen
+
+    def atoms_of_nodes(self, nodes):
+        out = set()
+        for n in self.closure_of(nodes):
+            out |= self.atoms.get(n, set())
+        return out
+
+    def atoms_of_operand(self, b, op):
+        tmp = ("tmp", id(op))
+        self.edges.pop(tmp, None)
+        self.atoms.pop(tmp, None)
+        self._use_op(b, tmp, op)
+        out = self.atoms_of_nodes([tmp])
+        self.edges.pop(tmp, None)
+        self.atoms.pop(tmp, None)
+        return out
+
+    def atoms_of_place(self, b, pl):
+        return self.atoms_of_operand(b, {"k": "copy", "pl": pl})
+
+    def atoms_of_local(self, b, l):
+        return self.atoms_of_nodes([(b.id, l)])
+
+
+def atoms_calls(atoms, name=None, owner=None):
+    out = []
+    for a in atoms:
+        if a[0] == "call" and (name is None or a[3] == name) and (owner is None or owner in (a[4] or "") or owner in (a[5] or "")):
+            out.append(a)
+    return out
+
+
+def atoms_params(atoms, body_id=None):
+    return sorted({a[2] for a in atoms if a[0] == "param" and (body_id is None or a[1] == body_id)})
+
+
+def atoms_fields(atoms):
+    return sorted({(a[1], a[2]) for a in atoms if a[0] == "field"})
+
+
+def _crate_deps(self, root):
+    key = ("deps", root.id)
+    if key not in self._cache:
+        self._cache[key] = Deps(self, root)
+    return self._cache[key]
+
+
+Crate.deps = _crate_deps
+
+
+# ---------------------------------------------------------------------------- finite evaluation
+class EvalStuck(Exception):
+    pass
+
+
+def enum_eval(body, args, max_steps=500):
+    """Constant propagation along the one feasible path of a call-free function over field-less
+    enums / tuples of them (used to decide small truth tables such as PendingType::merge).
+    args: list of values for the parameters; a value is an int (variant index / integer) or a
+    list (tuple).  Returns the value of the return place.  Raises EvalStuck on anything else."""
+    env = {i + 1: v for i, v in enumerate(args)}
+
+    def rd_place(pl):
+        if pl["l"] not in env:
+            raise EvalStuck("read of unset local %d" % pl["l"])
+        v = env[pl["l"]]
+        for p in pl["p"]:
+            if p == "*":
+                continue
+            if isinstance(p, dict) and "f" in p and isinstance(v, list):
+                v = v[p["i"]]
+            else:
+                raise EvalStuck("projection %r" % (p,))
+        return v
+
+    def rd_op(op):
+        if op["k"] in ("copy", "move"):
+            return rd_place(op["pl"])
+        if op["k"] == "const" and "int" in op:
+            return int(op["int"])
+        raise EvalStuck("operand %r" % (op,))
+
+    bb = 0
+    for _ in range(max_steps):
+        blk = body.blocks[bb]
+        for s in blk["stmts"]:
+            if s["k"] != "assign":
+                raise EvalStuck("stmt")
+            if s["lhs"]["p"]:
+                raise EvalStuck("partial store")
+            rv = s["rv"]
+            k = rv["k"]
+            if k == "use":
+                v = rd_op(rv["op"])
+            elif k == "agg" and rv.get("agg") == "tuple":
+                v = [rd_op(o) for o in rv["ops"]]
+            elif k == "agg" and rv.get("agg") == "adt" and not rv["ops"]:
+                v = rv["vi"]
+            elif k == "discr":
+                v = rd_place(rv["pl"])
+                if not isinstance(v, int):
+                    raise EvalStuck("discr of non enum")
+            elif k == "ref":
+                v = rd_place(rv["pl"])
+            else:
+                raise EvalStuck("rvalue " + k)
+            env[s["lhs"]["l"]] = v
+        t = blk["term"]
+        if t["k"] == "goto":
+            bb = t["target"]
+        elif t["k"] == "switch":
+            v = rd_op(t["discr"])
+            nxt = t["otherwise"]
+            for val, tgt in t["cases"]:
+                if int(val) == v:
+                    nxt = tgt
+            bb = nxt
+        elif t["k"] == "return":
+            return env.get(0)
+        elif t["k"] == "unreachable":
+            raise EvalStuck("reached unreachable")
+        else:
+            raise EvalStuck("terminator " + t["k"])
+    raise EvalStuck("too many steps")
